@@ -282,10 +282,24 @@ def check_ps_ht(ctx, f, rec, where, which, col, table):
         ok = lits == [f"{which}:Z:none"]
         ctx.check(ok, "R20.4", where, f"the unphased branch writes {which}:Z:none", key_of(f, f"{which}-none:{s}"), column=s)
         return
+    # locals that stand for this read's entry: every binding is `table.get(<rec>.query_name[, d])`, `table[<rec>.query_name]`,
+    # or the "absent" value (None / a private marker) — the guard rule decides which one is live where the phase is written
+    aliases = set()
+    by_name = {}
+    for st_ in walk_own(f.node):
+        if isinstance(st_, ast.Assign) and len(st_.targets) == 1 and isinstance(st_.targets[0], ast.Name):
+            by_name.setdefault(st_.targets[0].id, []).append(st_.value)
+    for nm_, vs_ in by_name.items():
+        def _is_entry(v):
+            return (isinstance(v, ast.Call) and isinstance(v.func, ast.Attribute) and v.func.attr == "get" and norm(v.func.value) == table.name and v.args and norm(v.args[0]) == f"{rec}.query_name") or norm(v) == entry
+        def _is_absent(v):
+            return (isinstance(v, ast.Constant) and v.value is None) or (isinstance(v, ast.Name) and isinstance(f.module.consts.get(v.id), ast.Call) and norm(f.module.consts[v.id].func) == "object")
+        if any(_is_entry(v) for v in vs_) and all(_is_entry(v) or _is_absent(v) for v in vs_):
+            aliases.add(nm_)
     cols = []
     for h in holes:
         e = h[1]
-        if isinstance(e, ast.Attribute) and norm(e.value) == entry:
+        if isinstance(e, ast.Attribute) and (norm(e.value) == entry or (isinstance(e.value, ast.Name) and e.value.id in aliases)):
             cols.append(table.attr_col.get(e.attr))
         else:
             cols.append(None)
@@ -309,7 +323,40 @@ def r20_4_guard(ctx, f, rec, st, out, table):
     class Unknown(Exception):
         pass
 
+    def entry_kind(v):
+        """how a local is bound to the read's entry: 'get' (entry or a default), 'entry' (table[key]), 'absent' (None / a marker)"""
+        if isinstance(v, ast.Call) and isinstance(v.func, ast.Attribute) and v.func.attr == "get" and norm(v.func.value) == table.name and v.args and norm(v.args[0]) == f"{rec}.query_name":
+            return "get", (norm(v.args[1]) if len(v.args) > 1 else "None")
+        if isinstance(v, ast.Subscript) and norm(v) == entry:
+            return "entry", None
+        if (isinstance(v, ast.Constant) and v.value is None) or (isinstance(v, ast.Name) and isinstance(f.module.consts.get(v.id), ast.Call) and norm(f.module.consts[v.id].func) == "object"):
+            return "absent", norm(v)
+        return None, None
+
     def ev(e, world, flags):
+        # a local bound to the read's entry (`node = phase.get(name, MARK)`, `node = phase[name]`, `node = None`)
+        if isinstance(e, ast.Compare) and len(e.ops) == 1 and isinstance(e.ops[0], (ast.Is, ast.IsNot)) and isinstance(e.left, ast.Name) and e.left.id in flags and not isinstance(flags[e.left.id], bool):
+            kind, dflt = entry_kind(flags[e.left.id])
+            cmp_ = norm(e.comparators[0])
+            res = None
+            if kind == "get" and cmp_ == dflt:
+                res = not world[0]
+            elif kind == "entry" and (cmp_ == "None" or entry_kind(e.comparators[0])[0] == "absent"):
+                res = False
+            elif kind == "absent" and cmp_ == dflt:
+                res = True
+            if res is not None:
+                return res == isinstance(e.ops[0], ast.Is)
+        if any(isinstance(x, ast.Name) and x.id in flags and not isinstance(flags[x.id], bool) and entry_kind(flags[x.id])[0] in ("get", "entry") for x in ast.walk(e)) and not isinstance(e, (ast.BoolOp, ast.UnaryOp, ast.Name)):
+            import copy as _copy
+
+            class _S(ast.NodeTransformer):
+                def visit_Name(self, n_):
+                    if isinstance(n_.ctx, ast.Load) and n_.id in flags and not isinstance(flags[n_.id], bool) and entry_kind(flags[n_.id])[0] in ("get", "entry"):
+                        return ast.copy_location(ast.parse(entry, mode="eval").body, n_)
+                    return n_
+
+            e = ast.fix_missing_locations(_S().visit(_copy.deepcopy(e)))
         t, tp = canon_test(e, True)
         if t == P_TXT:
             return world[0] == tp
